@@ -535,7 +535,8 @@ def defined_before_used(ctx):
             if missing:
                 ctx.ob(props, 'RF12-defuse', c, site, None)
                 for (f, ln) in missing:
-                    ctx.find(props, 'RF12-defuse', init, 'undefined:%s.%s' % f, m.loc(c, ln),
+                    # the buffer cursor / fill level left by an earlier transfer lets the copy run past the transfer buffer: C01
+                    ctx.find(props + (['C01'] if f[0] == 'CO_SDO_BUF' else []), 'RF12-defuse', init, 'undefined:%s.%s' % f, m.loc(c, ln),
                              '%s reads %s.%s (line %d) but the initiator %s does not set it on every successful path: the '
                              'new transfer continues with whatever an earlier - possibly aborted or unfinished - transfer '
                              'left in that field' % (c, f[0], f[1], ln, init))
